@@ -102,6 +102,8 @@ type FnExec struct {
 	noAssume    bool // suppress assumption generation (while describing inputs for models)
 	pendingAxiom map[string]pendingFam
 	noOpenInv   bool // do not instantiate representation invariants for values read under quantifiers
+	rngs        []rngRec
+	rngSeen     map[*Term]bool
 }
 
 type rangeMap struct {
